@@ -170,17 +170,46 @@ func c07URLOk(s *jsonapi.Schema, u *jsonapi.URL, q url.Values) (string, string) 
 			}
 		}
 	}
+	// what the recorded finding (include-zero-rel-survives) predicts: the validation
+	// loop deletes while iterating, so the path that slides into the place of a
+	// removed one is never validated and survives
+	knownBug := func() [][]jsonapi.Rel {
+		incs := append([]string{}, requested...)
+		sort.Strings(incs)
+		for i := len(incs) - 1; i >= 0; i-- {
+			if i > 0 && (incs[i] == incs[i-1] || strings.HasPrefix(incs[i], incs[i-1]+".")) {
+				incs = append(incs[:i-1], incs[i:]...)
+			}
+		}
+		for i := 0; i < len(incs); i++ {
+			if !validPath(s, u.ResType, incs[i]) {
+				incs = append(incs[:i], incs[i+1:]...) // and i still advances
+			}
+		}
+		out := make([][]jsonapi.Rel, len(incs))
+		for i, p := range incs {
+			cur := u.ResType
+			for _, w := range strings.Split(p, ".") {
+				var r jsonapi.Rel
+				if t := typeByName(s, cur); t != nil {
+					r = t.Rels[w]
+				}
+				out[i] = append(out[i], r)
+				cur = r.ToType
+			}
+		}
+		return out
+	}
 	got := map[string]bool{}
 	for _, chain := range u.Params.Include {
 		cur := u.ResType
 		var names []string
+		bad := ""
 		for _, r := range chain {
 			t := typeByName(s, cur)
-			if t == nil {
-				return "include-not-a-chain", fmt.Sprintf("%v", chain)
-			}
-			if r == (jsonapi.Rel{}) {
-				return "include-zero-rel-survives", fmt.Sprintf("after %v in %v", names, requested)
+			if t == nil || r == (jsonapi.Rel{}) {
+				bad = fmt.Sprintf("after %v in %v", names, requested)
+				break
 			}
 			if rr, ok := t.Rels[r.FromName]; !ok || rr != r || r.FromName == "" {
 				return "include-not-a-chain", fmt.Sprintf("after %v: %s", names, descRel(r))
@@ -188,19 +217,29 @@ func c07URLOk(s *jsonapi.Schema, u *jsonapi.URL, q url.Values) (string, string) 
 			names = append(names, r.FromName)
 			cur = r.ToType
 		}
+		if bad != "" {
+			// a path that is not a chain of the schema survived: the recorded finding
+			// when (and only when) the whole list is what that defect produces
+			if reflect.DeepEqual(u.Params.Include, knownBug()) {
+				return "include-zero-rel-survives", bad
+			}
+			return "include-not-a-chain", bad
+		}
 		got[strings.Join(names, ".")] = true
 	}
 	for _, p := range requested {
 		if !validPath(s, u.ResType, p) {
 			continue
 		}
+		// "kept unless a longer requested path extends it" (valid or not)
 		extended := false
 		for _, q2 := range requested {
-			if q2 != p && strings.HasPrefix(q2, p+".") && validPath(s, u.ResType, q2) {
+			if q2 != p && strings.HasPrefix(q2, p+".") {
 				extended = true
 			}
 		}
 		if !extended && !got[p] {
+			// the recorded finding also drops the valid path that follows a removed one? no: it keeps it
 			return "valid-include-dropped", p
 		}
 	}
